@@ -39,9 +39,51 @@ def _tuple0(t):
     return t
 
 
+NOM_PAIR_C = re.compile(r"^nom::sequence::pair::\{closure#0\}$")
+LOCAL_PARSERS = {}     # local fn path -> nom number parser it forwards its whole input to (filled by register_local_parsers)
+
+
+def register_local_parsers(prog):
+    """Local functions `fn f(i: &[u8]) -> IResult<&[u8], T> { nom_number_parser(i) }` behave as that parser when
+    they are handed to a combinator by name."""
+    for b in list(prog.bodies.values()):
+        if b.kind not in ("fn", "inlined-helper") or b.raw.get("arg_count") != 1 or "nom::" not in b.raw.get("sig_out", ""):
+            continue
+        rbs = b.return_blocks()
+        if len(rbs) != 1:
+            continue
+        v = b.origin_place({"l": 0, "p": []}, rbs[0], len(b.blocks[rbs[0]]["stmts"]))
+        if isinstance(v, tuple) and v[0] == "call" and NOM_NUM.match(v[1]) and len(v[2]) == 1 and T.is_param(T.peel(v[2][0]), 1):
+            LOCAL_PARSERS[b.path] = v[1]
+
+
+def _parser_of(f):
+    """(width Aff, kind) of a parser-valued term: a nom number parser (or a local alias of one) named as a function"""
+    f = T.peel(f, payloads=False)
+    if isinstance(f, tuple) and f[0] == "const" and f[1][0] == "fn":
+        name = LOCAL_PARSERS.get(f[1][1], f[1][1])
+        m = NOM_NUM.match(name)
+        if m:
+            return Aff(int(m.group(3)) // 8), "%s_%s%s" % (m.group(1), m.group(2), m.group(3))
+    return None
+
+
+def _pair_parts(call):
+    """for `pair(P1, P2)(i)`: (input, [(w1, kind1), (w2, kind2)]) or None"""
+    if not NOM_PAIR_C.match(call[1]):
+        return None
+    mk = T.peel(call[2][0], payloads=False)
+    if not (T.is_call(mk, r"^nom::sequence::pair$") and len(mk[2]) == 2):
+        return None
+    ps = [_parser_of(x) for x in mk[2]]
+    if any(p is None for p in ps):
+        return None
+    return _tuple0(call[2][1]), ps
+
+
 def nom_step(call):
     """For a call term of a nom parser applied to an input: (input_term, width Aff|None, kind, extra)."""
-    name = call[1]
+    name = LOCAL_PARSERS.get(call[1], call[1])
     m = NOM_NUM.match(name)
     if m:
         w = int(m.group(3)) // 8
@@ -77,6 +119,11 @@ def locate(t, depth=0):
             if idx == 0:
                 return b, off, k
             return b, off.add(k), (ln.add(k, -1) if ln is not None else None)
+        pp = _pair_parts(call)
+        if pp is not None and idx == 0:
+            b, off, ln = locate(pp[0], depth + 1)
+            w = pp[1][0][0].add(pp[1][1][0])
+            return b, off.add(w), (ln.add(w, -1) if ln is not None else None)
         st = nom_step(call)
         if st is not None:
             inp, w, kind, extra = st
@@ -123,6 +170,16 @@ def reading(t):
             inp, w, kind, _ = st
             b, off, _ln = locate(inp)
             return {"kind": kind, "base": b, "off": off, "width": w.c}
+    # element k of the value pair of `pair(P1, P2)(i)`
+    if isinstance(t0, tuple) and t0[0] == "field" and isinstance(t0[3], int) and t0[3] in (0, 1):
+        call2, idx2 = _unwrap_result_tuple(t0[1])
+        if call2 is not None and idx2 == 1:
+            pp = _pair_parts(call2)
+            if pp is not None:
+                b, off, _ln = locate(pp[0])
+                if t0[3] == 1:
+                    off = off.add(pp[1][0][0])
+                return {"kind": pp[1][t0[3]][1], "base": b, "off": off, "width": pp[1][t0[3]][0].c}
     if isinstance(t0, tuple) and t0[0] == "index":
         b, off, _ln = locate(t0[1])
         return {"kind": "u8", "base": b, "off": off.add(T.affine(t0[2])), "width": 1}
